@@ -61,26 +61,27 @@ class C03(UtfCheck):
             for lo in range(0, 65536, 16384):
                 yield enum_case('bytes2', fn, 'to', '_', '1' if fn == 'str_to_latin_1' else '_', lo, lo + 16384)
         if not quick:
-            for fn in ('utf8_to_utf16', 'utf8_to_utf32', 'utf8_to_latin_1', 'str_from_utf8'):
-                for mode in MODES:
-                    for lo in range(0, 1 << 24, 1 << 19):
-                        yield enum_case('bytes3', fn, 'ptr', mode, '1' if fn == 'utf8_to_latin_1' else '_', lo, lo + (1 << 19))
-            for first in SURR_UNITS:
-                for fn in FN_BY_SRC['16']:
-                    for mode in MODES:
-                        yield enum_case('u16x2', fn, 'ptr', mode, '1' if ALL_FN[fn][3] else '_', first << 16, (first << 16) + 65536)
-        for fn in FN_BY_SRC['32']:
+            # all 3-byte strings with a first byte C0..FF (see C02), 4.2 M per route
+            for fn, mode, sub in (('utf8_to_utf16', 'av', '_'), ('utf8_to_utf32', 'cv', '_'), ('utf8_to_latin_1', 'si', '1'),
+                                  ('str_from_utf8', 'si', '_')):
+                for lo in range(0xC00000, 1 << 24, 1 << 19):
+                    yield enum_case('bytes3', fn, 'ptr', mode, sub, lo, lo + (1 << 19))
+            for k, first in enumerate(SURR_UNITS):
+                for fi, fn in enumerate(FN_BY_SRC['16']):
+                    yield enum_case('u16x2', fn, 'ptr', MODES[(k + fi) % 3], '1' if ALL_FN[fn][3] else '_', first << 16, (first << 16) + 65536)
+        for fi, fn in enumerate(FN_BY_SRC['32']):
             sub = '1' if ALL_FN[fn][3] else '_'
             for mode in MODES:
                 rngs = [(0xD000, 0xE800), (0x10F000, 0x110000), (0x110000, 0x111000), (0x3FF800, 0x400800), (0xFFFFF800, 0x100000000)]
-                if not quick:
-                    rngs += [(lo, lo + 0x22000) for lo in range(0, 0x110000, 0x22000)]
                 for lo, hi in rngs:
                     if fn in ('utf32_to_wchar', 'wchar_to_utf32') and lo > 0x10FFFF and mode == 'cv':
                         # plain-copy routes: whether check_validity must reject is C02's question (known finding there);
                         # the digest cannot separate "safe" from "same decision", so these ranges run under av/si only
                         continue
                     yield enum_case('cp', fn, 'ptr', mode, sub, lo, hi)
+            if not quick and fn in ('utf32_to_utf8', 'utf32_to_utf16', 'utf32_to_latin_1', 'wchar_to_utf16', 'wchar_to_latin_1', 'str_from_wchar'):
+                for lo in range(0, 0x110000, 0x22000):
+                    yield enum_case('cp', fn, 'ptr', MODES[(fi + lo // 0x22000) % 3], sub, lo, lo + 0x22000)
         # ---- directed malformed inputs, block-reading routes
         block_routes = {'ptr', 'u8', 'view', 'ctor', 'ctorview', 'set', 'setview', 'u8view', 'u8ctor', 'u8set', 'u8ctorview', 'ptrmode'}
         for kind in ('8', '16', '32'):
@@ -119,7 +120,7 @@ class C03(UtfCheck):
                 for fn in FN_BY_SRC[kind][:4]:
                     yield case(fn, 'ptr', rng.choice(MODES), '1' if ALL_FN[fn][3] else '_', u)
         # ---- seeded random garbage
-        nrand = 2500 if quick else 60000
+        nrand = 2500 if quick else 40000
         for _ in range(nrand):
             kind = rng.choice(['8', '8', '16', '32'])
             n = rng.choice([1, 2, 3, 4, 5, 6, 7, 9, 15, 16, 17, 40])
